@@ -14,10 +14,10 @@ LB = "crates/isograph_lang_types/src/semantic_token_legend/line_behavior.rs"
 
 # Rust variant -> (Lean constructor, payload struct, ordered payload fields)
 VARIANTS = {
-    "StartsNewLine": ("startsNewLine", "StartsNewLineBehavior", ["space_after"]),
-    "EndsLine": ("endsLine", "EndsLineBehavior", ["space_before"]),
-    "Inline": ("inline", "InlineBehavior", ["space_before", "space_after"]),
-    "IsOwnLine": ("isOwnLine", None, []),
+    "StartsNewLine": ("starts", "StartsNewLineBehavior", ["space_after"]),
+    "EndsLine": ("ends", "EndsLineBehavior", ["space_before"]),
+    "Inline": ("inl", "InlineBehavior", ["space_before", "space_after"]),
+    "IsOwnLine": ("ownLine", None, []),
     "Remove": ("remove", None, []),
 }
 FIELD_WRAPPER = {"space_after": "SpaceAfter", "space_before": "SpaceBefore"}
@@ -247,11 +247,11 @@ def translate():
     body = f"""namespace IsoVerif.Gen.Legend
 
 inductive LineBehavior
-  | startsNewLine (spaceAfter : Bool)
-  | endsLine (spaceBefore : Bool)
-  | inline (spaceBefore spaceAfter : Bool)
-  | isOwnLine
-  | remove
+  | starts (spaceAfter : Bool)      -- StartsNewLine
+  | ends (spaceBefore : Bool)       -- EndsLine
+  | inl (spaceBefore spaceAfter : Bool)  -- Inline
+  | ownLine                         -- IsOwnLine
+  | remove                          -- Remove
   deriving DecidableEq, Repr, Inhabited
 
 inductive IndentChange
